@@ -234,8 +234,15 @@ func (c *Channel) Invoke(ctx context.Context, method string, req, resp interface
 		cloner = ProtoCloner{}
 	}
 
+	// Copy the request now. Invoke can return before the handler decodes the
+	// request (e.g. on cancellation), after which the caller is free to
+	// re-use req; the handler goroutine must not read it then.
+	reqCopy, err := cloner.Clone(req)
+	if err != nil {
+		return err
+	}
 	codec := func(out interface{}) error {
-		return cloner.Copy(out, req)
+		return cloner.Copy(out, reqCopy)
 	}
 	ctx, cancel := context.WithCancel(ctx)
 	sts := internal.UnaryServerTransportStream{Name: method}
